@@ -1,6 +1,12 @@
 #!/bin/bash
-# usage: battery.sh <logfile> "<ID props...>" ...   - runs mutcheck for each spec, 4 in parallel
+# usage: battery.sh <logfile> "<ID props...>" ...   - runs mutcheck for each spec, 4 in parallel, on a snapshot of /verif
+# (so that /verif can be edited meanwhile); snapshot and its caches are removed at the end
 log=$1; shift
 : > $log
-printf '%s\n' "$@" | xargs -P 4 -I{} bash -c '/verif/tools/mutcheck.sh {} 2>&1 | tail -6' >> $log 2>&1
+snap=/tmp/verif-snap
+rm -rf $snap; mkdir -p $snap
+rsync -a --exclude .cache --exclude .git --exclude 'target*' /verif/ $snap/
+export VERIF_ROOT=$snap
+printf '%s\n' "$@" | xargs -P 4 -I{} bash -c "$snap/tools/mutcheck.sh {} 2>&1 | tail -8" >> $log 2>&1
+rm -rf $snap
 echo BATTERY-DONE >> $log
